@@ -1,6 +1,9 @@
 #!/bin/bash
 # tools/seed_matrix.sh "<seeds>" <patch>... : detection robustness of the quick check across VERIF_SEED values
 seeds="$1"; shift
+# keep evidence/C20.json as it was: runs on a patched /repo must never be committed as evidence
+cp /verif/evidence/C20.json /tmp/C20.evidence.saved 2>/dev/null
+trap 'cp /tmp/C20.evidence.saved /verif/evidence/C20.json 2>/dev/null' EXIT
 for p in "$@"; do
   name=$(basename $(dirname $p))
   git -C /repo apply "$(realpath $p)" || { echo "$name APPLY-FAILED"; continue; }
